@@ -91,4 +91,34 @@ ASSUME WhyNot(<<62, 32, A>>, "decoder",
               <<[T(<<62, 32>>, <<"BlockQuote", "BlockQuoteStart">>) EXCEPT !.q = 1], [T(<<A>>, <<"BlockQuote">>) EXCEPT !.q = 1], EOF>>,
               <<[T(<<62>>, <<"BlockQuote", "BlockQuoteStart">>) EXCEPT !.q = 1], [T(<<32, A>>, <<"BlockQuote">>) EXCEPT !.q = 1], EOF>>)
        = "C17_ChunkIndependent: token differs from the whole-input read"
+
+(* chunk dependence that only shows when the end of the input is signalled together with  *)
+(* data: a line inside a preformatted block that merely starts with three backticks is    *)
+(* taken for the closing fence.  Document: "```\n```a\nb\n"                               *)
+BPre == <<"BlockPre">>
+InF == <<TICK, TICK, TICK, NL, TICK, TICK, TICK, A, NL, A, NL>>
+RefF == <<T(<<TICK, TICK, TICK, NL>>, <<"BlockPre", "BlockPreStart">>), T(<<TICK, TICK, TICK, A, NL>>, BPre),
+          T(<<A, NL>>, BPre), EOF>>
+GotF == <<T(<<TICK, TICK, TICK, NL>>, <<"BlockPre", "BlockPreStart">>), T(<<TICK, TICK, TICK, A>>, <<"BlockPre", "BlockPreEnd">>),
+          T(<<NL>>, <<>>), T(<<A, NL>>, <<>>), EOF>>
+ASSUME Accepts(InF, "decoder", <<>>, RefF)
+ASSUME Accepts(InF, "decoder", <<>>, GotF)          \* each stream alone satisfies every other clause
+ASSUME WhyNotD(InF, "decoder", RefF, <<11>>, "with-data", GotF) = "C17_ChunkIndependent: token differs from the whole-input read"
+ASSUME WhyNotD(InF, "decoder", RefF, <<0, 4, 4, 11, 11, 11>>, "separate", RefF) = ""
+
+(* deliveries: what a reader may do, and what the harness must not do *)
+ASSUME LegalDelivery(In1, <<4, 4>>, "separate")              \* one big read, then the end
+ASSUME LegalDelivery(In1, <<4>>, "with-data")                \* the whole input together with the end
+ASSUME LegalDelivery(In1, <<0, 1, 1, 3, 4>>, "with-data")    \* (0, nil) reads in between
+ASSUME LegalDelivery(In1, <<1, 2, 3, 4, 4, 4>>, "separate")  \* octet by octet, an empty read before the end
+ASSUME LegalDelivery(In1, <<2>>, "none")                     \* the decoder gave up early
+ASSUME LegalDelivery(<<>>, <<0>>, "separate")
+ASSUME ~LegalDelivery(In1, <<2, 1, 4, 4>>, "separate")       \* goes back
+ASSUME ~LegalDelivery(In1, <<5, 5>>, "separate")             \* more than the input
+ASSUME ~LegalDelivery(In1, <<3, 3>>, "separate")             \* end signalled before the last octet
+ASSUME ~LegalDelivery(In1, <<4, 4>>, "with-data")            \* the read that signalled the end was empty
+ASSUME ~LegalDelivery(In1, <<4>>, "separate")
+ASSUME ~LegalDelivery(<<>>, <<0>>, "with-data")
+ASSUME WhyNotD(In1, "decoder", <<>>, <<3, 3>>, "separate", Good1)
+       = "HARNESS_Delivery: the recorded reads are not a legal delivery of the input"
 =============================================================================
